@@ -338,9 +338,12 @@ def stop_track(rng):
                     x += rng.uniform(25, 40)
                     centre[p] = (x, y)
                 cx, cy = centre[p]
-                pts.append([round(cx + rng.uniform(-2, 2), 3), round(cy + rng.uniform(-2, 2), 3)])
-        if len(set(map(tuple, pts))) == len(pts):
-            return pts, plan
+                mates = [q for q, pl in zip(pts, plan) if pl == p]
+                if mates and rng.random() < 0.3:
+                    pts.append(list(rng.choice(mates)))          # a static receiver: the very same fix again
+                else:
+                    pts.append([round(cx + rng.uniform(-2, 2), 3), round(cy + rng.uniform(-2, 2), 3)])
+        return pts, plan
     raise M.HarnessError("could not build a stop track")
 
 
@@ -908,6 +911,28 @@ def run_stops(case, ctx):
     v, rec, nt, cls = _delegate_common(ctx, r, "findStopsGlobal", MAX, sig, cls, case_w)
     if v is not None:
         return v
+    # the rewards handed to optimalPartition are the documented criterion: (j-i)^2 when the smallest circle enclosing
+    # fixes i..j-1 is smaller than the diameter and they span more than the duration, 0 otherwise (cells within 1e-6 of
+    # the diameter are not judged)
+    from vt.oracles import geom as _geom
+    ctx.monitor("stops.rewards_are_the_documented_criterion")
+    n_ = len(pts)
+    for i in range(n_ - 2):
+        for j in range(i + 1, n_ - 1):
+            circ = _geom.min_enclosing_circle(pts[i:j])
+            dia = 2.0 * circ[2]
+            if abs(dia - case["diameter"]) < 1e-6:
+                continue
+            long_enough = (j - 1 - i) * 10.0 > case["duration"]
+            want_r = float((j - i) ** 2) if (dia < case["diameter"] and long_enough) else 0.0
+            if float(rec["matrix"][i, j]) != want_r:
+                w = {"what": "findStopsGlobal: the reward of a segment is not the documented criterion (enclosing circle "
+                             "smaller than the diameter and duration exceeded -> squared number of fixes, else 0)",
+                     "segment_first_fix": i, "segment_last_fix": j - 1, "enclosing_circle_diameter": dia,
+                     "seconds_spanned": (j - 1 - i) * 10.0, "reward_handed_over": float(rec["matrix"][i, j]),
+                     "documented_reward": want_r}
+                w.update(case_w)
+                return violated(w, sig, nt, cls)
     ctx.monitor("delegate.output_at_recorded_indices")
     res = [int(i) for i in rec["result"]]
     segments = [(a, b - 1) for a, b in zip(res, res[1:])]
